@@ -22,7 +22,10 @@ class Harness:
         self.engine = engine
         self.module = module
         self.line = line
-        self.props = meta.get("props", "").split()
+        # "C07~" = serves C07 only in the thorough tier (keeps the quick tier of the cross-cutting properties short)
+        toks = meta.get("props", "").split()
+        self.props = [t.rstrip("~") for t in toks]
+        self.thorough_only_for = {t.rstrip("~") for t in toks if t.endswith("~")}
         self.tier = meta.get("tier", "quick").strip()
         self.timeout = int(meta.get("timeout", "0") or 0)
         self.fns = [x.strip() for x in meta.get("fns", "").split(",") if x.strip()]
@@ -85,5 +88,5 @@ def load():
 def for_property(pid, tier):
     hs = [h for h in load() if pid in h.props]
     if tier == "quick":
-        hs = [h for h in hs if h.tier == "quick"]
+        hs = [h for h in hs if h.tier == "quick" and pid not in h.thorough_only_for]
     return hs
